@@ -733,7 +733,7 @@ class FlowDomain(Domain):
         if term.get('trait') == 'meta::table::Table' and term.get('name') == 'pop_dirty_blk_idx':
             c = table_cls(self.f, self.p.subst(term['a'][0], fr.ctx))
             if c in TOP:
-                clean = frozenset(x for x in tok if x != ('RAM', c))
+                clean = frozenset(x for x in tok if x != ('RAM', c) and x != ('NEEDSWEEP', c))
                 recv = self.cl.classify(ip, fr, term['args'][0], 'tbl')
                 if recv == 'LOCALTBL':
                     # a table still private to this task is thrown away when the operation fails
@@ -774,7 +774,7 @@ class FlowDomain(Domain):
                 kind = 'RC' if c == 'RB' else 'L2'
                 # every dirty slice is in the returned list and will be written
                 # by the caller; an empty list means nothing was dirty
-                ntok = frozenset(x for x in ntok if x != ('RAM', kind)) | {('F', 'FULLSWEEP:' + c)}
+                ntok = frozenset(x for x in ntok if x != ('RAM', kind) and x != ('NEEDSWEEP', kind)) | {('F', 'FULLSWEEP:' + c)}
             return [(frozenset(ntok), None)]
         if callee.endswith('L1Table::clone_and_grow'):
             # ASSUMED DEAD (one named symbol): the in-RAM L1 table is sized for the
@@ -965,17 +965,15 @@ class FlowDomain(Domain):
             self._site('flag', fr, bi, str(val))
             if val == 'T':
                 # the flag is up from here to the next suspension: a dirtying event right after it is covered too
-                return frozenset(x for x in tok if x[0] != 'NEEDFLAG') | {('FLAGSET',)}
+                return frozenset(x for x in tok if x[0] not in ('NEEDFLAG', 'NEEDSWEEP', 'FLAGDOWN')) | {('FLAGSET',)}
             if val == 'F':
-                tok = tok - {('FLAGSET',)}
-                ram = sorted(x[1] for x in tok if x[0] == 'RAM')
-                self._ob('C18.2', fr, bi, not ram, 'need_flush cleared in %s; RAM-dirty kinds at that point: %s' % (me, ram))
-                if ram:
-                    self._viol('C18.2', 'C18.2:%s' % me, fr, bi,
-                               '%s clears need_flush on a path on which metadata of kind %s may still be dirty only '
-                               'in RAM (the clear is not justified by a completed sweep of both top tables and both '
-                               'caches); path %s' % (me, ram, fr.chain_str()))
-                return tok
+                # Protocol: the flag may be cleared at any time provided that, on every path to an Ok return of the
+                # clearing function, a complete sweep of every kind of metadata is *started after* the clear (what is
+                # dirtied concurrently after the clear raises the flag again; what was dirty before is collected by
+                # the sweeps), and that every error return raises the flag again.
+                tok = frozenset(x for x in tok if x != ('FLAGSET',) and x[0] not in ('NEEDSWEEP', 'FLAGDOWN'))
+                self.flag_clears = getattr(self, 'flag_clears', set()) | {(me, fr.where(bi))}
+                return tok | {('NEEDSWEEP', k) for k in ('L1', 'L2', 'RC', 'RT')} | {('FLAGDOWN', fr.body.path)}
             self.undecided.append('%s: need_flush stored with a value the engine cannot decide' % fr.where(bi))
             return frozenset(x for x in tok if x[0] != 'NEEDFLAG')
         if field == 'dirty':
@@ -1003,6 +1001,23 @@ class FlowDomain(Domain):
     def on_return(self, ip, fr, tok, tags, bi):
         me = short(fr.body.path)
         rt = head(tags.get(0))
+        if ('FLAGDOWN', fr.body.path) in tok:
+            need = sorted(x[1] for x in tok if x[0] == 'NEEDSWEEP')
+            if rt == 'ok' or (rt is None and not fr.body.is_coroutine):
+                self._ob('C18.2', fr, bi, not need, 'need_flush cleared in %s; kinds not swept after the clear on this Ok path: %s' % (me, need),
+                         site='clear@%s:ok' % me)
+                if need:
+                    self._viol('C18.2', 'C18.2:%s' % me, fr, bi,
+                               '%s clears need_flush and returns Ok on a path on which no complete sweep of %s is started after the '
+                               'clear: metadata of that kind dirtied (by another task) between the last collection of dirty entries '
+                               'and the clear is left only in RAM with the flag cleared; path %s' % (me, need, fr.chain_str()))
+            elif rt == 'err':
+                self._ob('C18.2', fr, bi, False, 'need_flush cleared in %s and an error return does not raise it again' % me,
+                         site='clear@%s:err' % me)
+                self._viol('C18.2', 'C18.2:%s:err' % me, fr, bi,
+                           '%s clears need_flush and returns an error without raising it again: the metadata it failed to '
+                           'write is dirty only in RAM with the flag cleared; path %s' % (me, fr.chain_str()))
+            tok = frozenset(x for x in tok if x[0] not in ('NEEDSWEEP', 'FLAGDOWN'))
         for x in tok:
             if x[0] != 'F' or len(x) < 2:
                 continue
